@@ -37,8 +37,20 @@ def confined(d, p):
   return rp.startswith(d + os.sep) and rp != d
 
 
+def structured(max_comps):
+  for n in range(1, max_comps + 1):
+    for comps in itertools.product(('..', '.', 'a', ''), repeat=n):
+      path = '/'.join(comps)
+      yield path
+      yield path + ';t=v'
+      yield 'a;' + path + '=v'
+      yield 'a;t=' + path
+      yield 'a.b;t=v;u=' + path
+
+
 def main():
   ap = argparse.ArgumentParser()
+  ap.add_argument('--comps', type=int, default=6)
   ap.add_argument('--len', type=int, default=5)
   ap.add_argument('--seed', default='0')
   a = ap.parse_args()
@@ -82,8 +94,22 @@ def main():
         if q in seen and seen[q] != s and len(failures) < 5:
           failures.append({'id': 'path-collision', 'a': seen[q], 'b': s, 'path': q})
         seen[q] = s
+  # structured, path-like names: components from {'..', '.', 'a', ''} joined by '/', used as the
+  # whole name, as the series name of a tagged metric, as a tag name and as a tag value
+  n_struct = 0
+  for name in structured(a.comps):
+    for flag in (False, True):
+      db = W()
+      db.data_dir = d
+      db.tag_hash_filenames = flag
+      p = db._getFilesystemPath(name, flag)
+      evals += 1
+      n_struct += 1
+      if not confined(d, p) and len(failures) < 5:
+        failures.append({'id': 'path-escapes-data-dir', 'metric': name, 'hash_only': flag, 'path': p, 'normpath': os.path.normpath(p)})
+  distinct += n_struct // 2
   print('BOUNDED-RESULT ' + json.dumps({'evaluations': evals, 'distinct_cases': distinct, 'failures': failures[:5],
-                                        'alphabet': ALPHA, 'max_len': a.len, 'exhaustive': True}))
+                                        'alphabet': ALPHA, 'max_len': a.len, 'max_path_components': a.comps, 'exhaustive': True}))
 
 
 if __name__ == '__main__':
